@@ -338,7 +338,79 @@ func runC19(c *core.Ctx, o Options) {
 			c.Check(okMsg, "H4", "DefaultHandler.serve", "every handler is offered the inbound message itself", serve.Pos(), "handle(msg)", "a handler is not called with the inbound message")
 		}
 	}
-	c.RuleMin = map[string]int{"H1": 6, "H2": 7, "H3": 3, "H4": 4}
+	// H4: what ServeIncoming accepted is dispatched before Run ends: every return of Run after a stop signal passes the drain
+	if run, drain, serve := c.Func("", "DefaultHandler.Run"), c.Func("", "DefaultHandler.processRemainingIncoming"), c.Func("", "DefaultHandler.serve"); c.Anchor("handler loop and drain", run != nil && drain != nil && serve != nil, "DefaultHandler.Run, processRemainingIncoming, serve", posOf(run)) {
+		var drainCall *ssa.Call
+		an.AllInstrs(run, func(in ssa.Instruction) {
+			if call, ok := in.(*ssa.Call); ok && an.StaticCallee(&call.Call) == drain {
+				drainCall = call
+			}
+		})
+		paths, _ := an.EnumPaths(run, 256)
+		var bad []string
+		nStop := 0
+		for _, p := range paths {
+			if p.Return == nil {
+				continue
+			}
+			// exits that are not stop signals: the incoming channel was closed (nothing is queued), or a handler failed on a message
+			exempt := false
+			drained := false
+			for _, b := range p.Blocks {
+				for _, in := range b.Instrs {
+					if call, ok := in.(*ssa.Call); ok && an.StaticCallee(&call.Call) == drain {
+						drained = true
+					}
+				}
+			}
+			for _, b := range p.Blocks {
+				for _, in := range b.Instrs {
+					// a return on a way round the loop that dispatched a message can only be the failed-handler exit (success loops on)
+					if call, ok := in.(*ssa.Call); ok && an.StaticCallee(&call.Call) == serve {
+						exempt = true
+					}
+				}
+			}
+			res := ""
+			if len(p.Results) == 1 {
+				res = p.Results[0]
+			}
+			if strings.HasSuffix(res, "ErrConnClosed") && !drained {
+				// the closed-channel exit returns the sentinel directly
+				exempt = true
+			}
+			if exempt {
+				continue
+			}
+			nStop++
+			if !drained {
+				bad = append(bad, "Run returns under ["+p.CondString()+"] without dispatching the inbound messages that are still queued")
+			}
+		}
+		ob := c.Ob("H4", "DefaultHandler.Run", "queued inbound messages are dispatched before the loop ends on a stop signal", run.Pos())
+		if drainCall == nil || len(bad) > 0 || nStop < 2 {
+			ob.Fail("%s", strings.Join(append(bad, fmt.Sprintf("(%d stop exits found)", nStop)), "; "))
+		} else {
+			ob.Ok("%d stop exits, each after processRemainingIncoming", nStop)
+		}
+		// the drain: a non-blocking receive loop that dispatches every message it takes
+		okDrain := false
+		an.AllInstrs(drain, func(in ssa.Instruction) {
+			if sel, ok := in.(*ssa.Select); ok && !sel.Blocking && len(sel.States) == 1 && sel.States[0].Dir == 2 {
+				if f, _ := an.LoadedField(sel.States[0].Chan); f != nil && f.Name() == "incoming" {
+					okDrain = true
+				}
+			}
+		})
+		callsServe := false
+		an.AllInstrs(drain, func(in ssa.Instruction) {
+			if call, ok := in.(*ssa.Call); ok && an.StaticCallee(&call.Call) == serve {
+				callsServe = true
+			}
+		})
+		c.Check(okDrain && callsServe && len(loops(drain)) == 1, "H4", "DefaultHandler.processRemainingIncoming", "takes messages from the queue until it is empty and dispatches each", drain.Pos(), "for { select { case msg := <-incoming: serve(msg); default: return } }", "the drain does not empty the incoming queue through serve")
+	}
+	c.RuleMin = map[string]int{"H1": 6, "H2": 7, "H3": 3, "H4": 6}
 	c.MinObl = 20
 }
 
